@@ -219,7 +219,8 @@ def _abs_join(sep, it):
     probe = Rope.of(it._pyvc_elem(J))
     name = "join|" + probe.key()
     return bigcat(name, 0, n, lambda j: Rope.of(it._pyvc_elem(_t(j))),
-                  lambda j: Rope.of(it._pyvc_elem(_t(j))).length_term())
+                  lambda j: Rope.of(it._pyvc_elem(_t(j))).length_term(),
+                  min_len=getattr(it, "_pyvc_min_elem_len", 0))
 
 
 class KRecv:
